@@ -392,6 +392,11 @@ func TestMemoryBounded(t *testing.T) {
 				continue
 			}
 			p := Pair{Member: member, Workload: wl, Phases: phases, PerPhase: per, Seed: kit.Seed()*7919 + uint64(idx)} //nolint:gosec
+			if knownFor(p) != "" && p.PerPhase > 15000 {
+				// a pair that grows by a listed finding is only re-confirmed, at the quick size: the jitter buffer's queue makes every push
+				// linear in what it has retained, so long phases would spend the whole budget on it
+				p.PerPhase = 15000
+			}
 			res := runPair(p)
 			stateful := member != "noop" && member != "twcc-header-extension" && member != "packetdump-sender" && member != "packetdump-receiver" && member != "intervalpli"
 			rec.Case(kit.NewH().S(member).S(wl).U(p.Seed).Sum(), stateful && res.Skipped == "", []string{"member=" + member, "workload=" + wl}, func() any { return res })
